@@ -265,7 +265,7 @@ func MR[K comparable, V any](m map[K]V, site string) map[K]V {
 	if e := ex; e != nil && e.hb != nil && !e.dead && m != nil {
 		p := mapID(m)
 		e.hb.pin(p)
-		e.hb.access(e, p, 8, false, false, site)
+		e.hb.access(e, p, 8, false, false, "map@"+site)
 	}
 	return m
 }
@@ -275,7 +275,7 @@ func MW[K comparable, V any](m map[K]V, site string) map[K]V {
 	if e := ex; e != nil && e.hb != nil && !e.dead && m != nil {
 		p := mapID(m)
 		e.hb.pin(p)
-		e.hb.access(e, p, 8, true, false, site)
+		e.hb.access(e, p, 8, true, false, "map@"+site)
 	}
 	return m
 }
